@@ -43,10 +43,13 @@ theorem skel_htpasswdMap_Validate_ok : skel_htpasswdMap_Validate = ([
   "if !exists",
   "return false",
   "case sha1Pass",
+  "sha1.New",
   "d.Write",
   "if err != nil",
   "return false",
   "return string(rp) == base64.StdEncoding.EncodeToString(d.Sum(nil))",
+  "base64.StdEncoding.EncodeToString",
+  "d.Sum",
   "case bcryptPass",
   "return bcrypt.CompareHashAndPassword([]byte(rp), []byte(password))",
   "case ",
@@ -64,6 +67,8 @@ theorem skel_UserMap_LoadAuthenticatedEmailsFile_ok : skel_UserMap_LoadAuthentic
   "csvReader.ReadAll",
   "if err != nil",
   "return",
+  "strings.ToLower",
+  "strings.TrimSpace",
   "atomic.StorePointer"] : List String) := rfl
 
 end O2P.Expect.C20
